@@ -229,7 +229,7 @@ struct client {
 		}
 		return true;
 	}
-	std::string read_all(bool &timeout, int timeout_ms = 5000)
+	std::string read_all(bool &timeout, int timeout_ms = 30000)
 	{
 		std::string buf; timeout = false;
 		for (;;) {
@@ -284,12 +284,12 @@ int main()
 		cppcms::service srv(cfg);
 		srv.applications_pool().mount(cppcms::create_pool<upload>(), cppcms::mount_point(""), cppcms::app::asynchronous | cppcms::app::content_filter);
 		std::thread th([&srv]() { try { srv.run(); } catch (std::exception const &e) { std::cout << "SERVICE-THREW " << e.what() << std::endl; _exit(3); } });
-		{ client c; int tries = 0; while (!c.open() && tries++ < 400) usleep(5000); c.closefd(); usleep(2000); }
+		{ client c; int tries = 0; while (!c.open() && tries++ < 4000) usleep(5000); c.closefd(); usleep(2000); }
 		std::string line;
 		while (std::getline(std::cin, line)) {
 			std::vector<std::string> v = split(line);
 			if (!((v.size() == 10 || v.size() == 11) && v[0] == "rq")) { std::cout << "BAD-CASE" << std::endl; continue; }
-			for (int i = 0; i < 20000 && g_live > 0; i++) usleep(100);   // previous request fully gone
+			for (int i = 0; i < 200000 && g_live > 0; i++) usleep(100);   // previous request fully gone
 			{ std::lock_guard<std::mutex> g(g_mx); g_log.clear(); }
 			std::string mode = v[1], ct = unhex(v[7]), body = unhex(v[9]);
 			long long declared = atoll(v[6].c_str());
@@ -320,10 +320,10 @@ int main()
 			bool timeout;
 			std::string resp = c.read_all(timeout);
 			c.closefd();
-			for (int i = 0; i < 20000 && g_live > 0; i++) usleep(100);
+			for (int i = 0; i < 200000 && g_live > 0; i++) usleep(100);
 			// the request object (parser, files) goes away right after the context-specific data: give it a moment
 			int left = count_dir(g_updir);
-			for (int i = 0; i < 5000 && left > 0; i++) { usleep(100); left = count_dir(g_updir); }
+			for (int i = 0; i < 50000 && left > 0; i++) { usleep(100); left = count_dir(g_updir); }
 			if (left > 0) { std::string cmd = "rm -f '" + g_updir + "'/*"; if (system(cmd.c_str())) {} }
 			std::string status = "none";
 			if (!resp.empty()) {
